@@ -96,6 +96,12 @@ static void exec_op(Task* t, OpRec& rec, bool preempt) {
     }
     polyseed_data* seed = (polyseed_data*)t->slots[s];
     int nl = (int)liblangs.size();
+    if (rec.op.chain) {
+        // the input is this task's own latest output
+        if ((op.kind == OP_DECODE || op.kind == OP_DECODEX) && t->have_phrase) { rec.op.data = t->last_phrase; rec.op.b = t->last_phrase_coin; if (op.kind == OP_DECODEX) rec.op.a = t->last_phrase_lang; }
+        else if (op.kind == OP_LOAD && t->have_store) rec.op.data = t->last_store;
+        else { rec.skipped = true; rec.done = true; return; }
+    }
     t->edges_call = 0;
     auto enter = [&](const std::function<void()>& f) {
         t->cur = &rec;
@@ -111,6 +117,9 @@ static void exec_op(Task* t, OpRec& rec, bool preempt) {
 #endif
         E.misalign = ((op.a >> 10) & 1) != 0;
         E.norm_zero_on_invalid = ((op.a >> 14) & 1) != 0;
+        E.errno_noise = ((op.a >> 15) & 1) != 0;
+        E.norm_alias_unsafe = ((op.a >> 16) & 1) != 0;
+        E.syscall_faults = ((op.a >> 17) & 1) != 0;
         E.lifo_reuse = ((op.a >> 11) & 1) != 0;
         {   // the process environment is configuration too: the time zone must not matter
             static const char* TZS[4] = {nullptr, "JST-9", "EST5EDT", "NZST-12NZDT"};
@@ -160,6 +169,7 @@ static void exec_op(Task* t, OpRec& rec, bool preempt) {
         rec.bufs.push_back({out, 32, BUF_STORAGE});
         enter([&] { polyseed_store(seed, out); });
         rec.out.assign(out, out + 32);
+        t->last_store = rec.out; t->have_store = true;
         for (size_t i = 32; i < 32 + KEY_GUARD; ++i) if (out[i] != 0xCC) rec.guard_broken = true;
         free(out);
         break;
@@ -171,6 +181,7 @@ static void exec_op(Task* t, OpRec& rec, bool preempt) {
         enter([&] { rec.ret = polyseed_encode(seed, l, (polyseed_coin)(op.b & 2047), out); });
         size_t n = strnlen(out, STRSZ);
         rec.out.assign(out, out + n);
+        t->last_phrase = rec.out; t->last_phrase_lang = op.a % nl; t->last_phrase_coin = op.b & 2047; t->have_phrase = true;
         if (n == STRSZ) rec.guard_broken = true;      // no terminator inside the caller's buffer
         for (size_t i = STRSZ; i < STRSZ + STR_GUARD; ++i) if ((u8)out[i] != 0xCC) rec.guard_broken = true;
         free(out);
@@ -270,6 +281,7 @@ struct Checker {
     std::set<std::string> crypt_images;
     Stats* st;
     bool crypt_related = false;
+    std::map<int, AbsSeed> last_enc, last_sto; std::map<int, int> last_enc_lang;      // per task: the model seed behind the latest encode / store output
     bool have_pending = false; AbsSeed pending;      // the abstract seed a constructor's input denotes (kept if the library accepts it against the model's verdict)
     std::vector<Needle> needles;
 
@@ -479,6 +491,7 @@ struct Checker {
         case OP_LOAD: {
             u8 in[32]; memset(in, 0, 32); if (!op.data.empty()) memcpy(in, op.data.data(), std::min<size_t>(32, op.data.size()));
             AbsSeed m; int exp = model::parse(in, m);
+            if (op.chain && last_sto.count(rec.task)) { exp = ST_OK; m = last_sto[rec.task]; }     // an image written by polyseed_store must load, and to the seed that was stored
             if (exp == ST_OK || exp == ST_CHECKSUM) add_needles_seed(m);
             if (exp == ST_OK && is_crypt_image(m)) crypt_related = true;
             if (exp == ST_OK) { have_pending = true; pending = m; }
@@ -500,6 +513,11 @@ struct Checker {
             else if (!registry_matches) { st->add("unpredicted_registry_changed"); goto unpredicted; }
             {
                 model::Decoded d = model::decode(phrase, (unsigned)op.b & 2047, li);
+                if (op.chain && last_enc.count(rec.task) && d.status != ST_MULT_LANG) {
+                    // a phrase written by polyseed_encode must decode, and to the seed that was encoded (automatic detection may
+                    // legitimately answer 'multiple languages' when every word is shared)
+                    d.status = ST_OK; d.seed = last_enc[rec.task]; d.lang = last_enc_lang[rec.task]; d.have_idx = false;
+                }
                 for (auto& pv : d.partial) add_needles_idx_n(pv.data(), pv.size());
                 if (d.have_idx) { add_needles_idx(d.idx); unsigned c2[16]; memcpy(c2, d.idx, sizeof c2); c2[1] ^= (unsigned)op.b & 2047; add_needles_idx(c2); }
                 int exp = d.status;
@@ -527,6 +545,7 @@ struct Checker {
         }
         case OP_STORE: {
             add_needles_seed(it->second);
+            last_sto[rec.task] = it->second;
             u8 exp[32]; model::serialise(it->second, exp);
             if (rec.out.size() != 32 || memcmp(rec.out.data(), exp, 32)) {
                 int aspect = A_STORE;
@@ -538,7 +557,8 @@ struct Checker {
         case OP_ENCODE: {
             int li = libmap[op.a % libmap.size()];
             add_needles_seed(it->second);
-            if (li < 0) { st->add("unpredicted_unknown_language"); break; }
+            if (li < 0) { st->add("unpredicted_unknown_language"); last_enc.erase(rec.task); break; }
+            last_enc[rec.task] = it->second; last_enc_lang[rec.task] = li;
             unsigned idx[16];
             std::string nf = model::phrase_nfkd(it->second, li, (unsigned)op.b & 2047, idx);
             add_needles_idx(idx); add_needles_text(nf, "phrase text (decomposed)");
@@ -806,8 +826,9 @@ static RunResult run_preempt(const Plan& p, const RunOpts& o) {
     for (; i < p.ops.size(); ++i) {
         int k = p.ops[i].kind;
         if (k != OP_INJECT && k != OP_ENABLE && k != OP_CONFIG) break;
-        OpRec rec; rec.idx = (int)i; rec.op = p.ops[i]; rec.op.task = 0;
-        run_on_task(&tasks[0], [&] { exec_op(&tasks[0], rec, false); }, r, (int)i);
+        OpRec rec; rec.idx = (int)i; rec.op = p.ops[i]; rec.op.task = p.ops[i].task % nt;      // set-up is serial, but not necessarily all on one thread
+        Task* st = &tasks[rec.op.task];
+        run_on_task(st, [&] { exec_op(st, rec, false); }, r, (int)i);
         log.line(rec.str());
     }
     E.in_setup = false;
@@ -861,7 +882,12 @@ static RunResult run_preempt(const Plan& p, const RunOpts& o) {
         if (!unblocked.empty()) runnable = unblocked; else { if (++all_blocked_rounds > 100000) { r.v.found = true; r.v.prop = p.prop; r.v.oracle = "liveness"; r.v.cls = "deadlock"; r.v.msg = "every task waits for a lock of the library held by another task"; break; } }
         for (int k = 0; k < nt; ++k) tasks[k].blocked = false;      // a waiting task retries once somebody else has run
         Quantum q;
-        if (qi < p.sched.size()) { q = p.sched[qi++]; q.task = runnable[(size_t)q.task % runnable.size()]; if (!q.edges) q.edges = 1; }
+        if (qi < p.sched.size()) {
+            // a recorded schedule names the task itself; only if that task cannot run (a shrunk plan) is the choice re-mapped
+            q = p.sched[qi++];
+            if (std::find(runnable.begin(), runnable.end(), q.task) == runnable.end()) q.task = runnable[(size_t)q.task % runnable.size()];
+            if (!q.edges) q.edges = 1;
+        }
         else if (!p.sched.empty() || strategy < 0) { q.task = runnable[0]; q.edges = 1u << 30; }
         else {
             switch (strategy % 5) {
@@ -925,6 +951,7 @@ static RunResult run_preempt(const Plan& p, const RunOpts& o) {
     E.blocks.clear(); clear_block_index(); E.last_freed = -1; memset(E.task_blk_seq, 0, sizeof E.task_blk_seq); (void)nblocks_before;
     // the concurrent transcripts were rendered with their own numbering; renumber by replaying is not needed because
     // block ids enter the transcripts per task (see below)
+    for (int k = 0; k < ntasks; ++k) { tasks[k].have_phrase = false; tasks[k].have_store = false; }
     for (int k = 0; k < nt; ++k) {
         Task* t = &tasks[k]; TaskScript* sc = &solo[k];
         run_on_task(t, [t, sc] { run_script_job(t, sc, false); }, r, -1);
@@ -936,7 +963,7 @@ static RunResult run_preempt(const Plan& p, const RunOpts& o) {
             int kd = conc[k].recs[j].op.kind;
             if (p.prop == "C04" && kd != OP_KEYGEN) continue;     // C04 owns what reaches the KDF during key derivation
             if (p.prop == "C10" && kd != OP_GETF && kd != OP_ISENC && kd != OP_ENABLE && !(is_ctor(kd) && (conc[k].recs[j].status == ST_UNSUPPORTED) != (solo[k].recs[j].status == ST_UNSUPPORTED))) continue;
-            if (p.prop == "C11" && kd != OP_GETB) continue;
+            if (p.prop == "C11" && kd != OP_GETB && kd != OP_STORE) continue;
             if (p.prop == "C12" && kd != OP_CRYPT && kd != OP_ISENC && kd != OP_STORE) continue;
             r.v.found = true; r.v.prop = p.prop; r.v.oracle = "S"; r.v.cls = "serial-equivalence"; r.v.op = conc[k].recs[j].idx;
             r.v.msg = strf("task %d observed under this interleaving: %s ;; alone it observes: %s", k, a[j].c_str(), b[j].c_str());
@@ -951,9 +978,9 @@ static RunResult run_preempt(const Plan& p, const RunOpts& o) {
 RunResult run_plan(const Plan& p, const RunOpts& o) {
     reset_run();
     cleanup_pages();
-    E.cur_gen = -1; E.cur_opt = 0; E.fill = 0; E.fill_seed = 0; E.kdf_mode = 0; E.monitor = false; E.norm_full_len = false; E.misalign = false; E.lifo_reuse = false; E.norm_zero_on_invalid = false; E.no_race_oracle = getenv("POLYSIM_NO_R") != nullptr;
+    E.cur_gen = -1; E.cur_opt = 0; E.fill = 0; E.fill_seed = 0; E.kdf_mode = 0; E.monitor = false; E.norm_full_len = false; E.misalign = false; E.lifo_reuse = false; E.norm_zero_on_invalid = false; E.errno_noise = false; E.norm_alias_unsafe = false; E.syscall_faults = false; E.no_race_oracle = getenv("POLYSIM_NO_R") != nullptr;
     E.stats.c.clear();
-    for (int ti = 0; ti < ntasks; ++ti) { memset(tasks[ti].slots, 0, sizeof tasks[ti].slots); tasks[ti].locks_held = 0; tasks[ti].blocked = false; }
+    for (int ti = 0; ti < ntasks; ++ti) { memset(tasks[ti].slots, 0, sizeof tasks[ti].slots); tasks[ti].locks_held = 0; tasks[ti].blocked = false; tasks[ti].have_phrase = false; tasks[ti].have_store = false; }
     RunResult r = (p.mode == "preempt") ? run_preempt(p, o) : run_ops(p, o);
     if (r.v.found && r.v.prop.empty()) r.v.prop = p.prop;
     fold_seam_counts(r);
